@@ -58,7 +58,7 @@ def _isinstance(x, t):
 
 
 def _len(x):
-    if _real_isinstance(x, SymBase):
+    if _real_isinstance(x, SymBase) or (hasattr(type(x), "__symlen__") and not _real_isinstance(x, (list, tuple, dict, str, bytes))):
         return x.__symlen__()
     return _real_len(x)
 
